@@ -126,7 +126,7 @@ func main() {
 	}
 	defer os.RemoveAll(p.workdir)
 
-	total := evid.Tiered(fl.Tier, 20000, 2000000)
+	total := evid.Tiered(fl.Tier, 60000, 2000000)
 	workers := evid.Tiered(fl.Tier, 10, 14)
 	// development aids (never set by registered commands): a smaller input count, a subset of surfaces
 	if v, err := strconv.Atoi(os.Getenv("FUZZMON_TOTAL")); err == nil && v > 0 {
